@@ -57,22 +57,43 @@ async fn restart(node: &ReplicatedShardedState, ckpt: &Option<HashMap<String, Re
     Ok(())
 }
 
-fn new_node() -> ReplicatedShardedState {
-    ReplicatedShardedState::new(ReplicationConfig { replica_id: 1, ..Default::default() })
+fn new_node_with(replica_id: u64, causal: bool) -> ReplicatedShardedState {
+    let consistency_level = if causal { redis_sim::replication::ConsistencyLevel::Causal } else { redis_sim::replication::ConsistencyLevel::Eventual };
+    ReplicatedShardedState::new(ReplicationConfig { replica_id, consistency_level, ..Default::default() })
+}
+
+/// Logical times of a long-lived cluster lie beyond 2^32; the specification only needs order and
+/// successor, so the trace carries them shifted down to 1_000_000.. (every small time stays below).
+const BIG: u64 = 1 << 32;
+fn ct(t: u64) -> u64 {
+    if t >= (1 << 31) { t - BIG + 1_000_000 } else { t }
 }
 
 async fn mem(node: &ReplicatedShardedState) -> Value {
     let snap: BTreeMap<String, ReplicatedValue> = node.snapshot_state().await.into_iter().collect();
-    json!(snap.iter().map(|(k, v)| json!([k, [v.timestamp.time, v.timestamp.replica_id.0]])).collect::<Vec<_>>())
+    json!(snap.iter().map(|(k, v)| json!([k, [ct(v.timestamp.time), v.timestamp.replica_id.0]])).collect::<Vec<_>>())
+}
+
+/// For every key that serves a string: the stamp of the write that produced the served payload.
+async fn memv(node: &ReplicatedShardedState, origin: &HashMap<String, (u64, u64)>) -> Value {
+    let snap: BTreeMap<String, ReplicatedValue> = node.snapshot_state().await.into_iter().collect();
+    json!(snap.iter().filter_map(|(k, v)| {
+        let payload = String::from_utf8_lossy(v.get()?.as_bytes()).to_string();
+        origin.get(&payload).map(|(t, r)| json!([k, [ct(*t), r]]))
+    }).collect::<Vec<_>>())
 }
 
 async fn run_async(run: usize, steps: Vec<Value>, log: &mut Vec<Value>) {
-    let mut node = new_node();
+    // every third run under the causal consistency level (register writes carry vector clocks)
+    let causal = run % 3 == 2;
+    let mut node = new_node_with(1, causal);
+    let mut origin: HashMap<String, (u64, u64)> = HashMap::new();   // payload -> stamp of the write that carried it
+    let mut everything: Vec<ReplicationDelta> = Vec::new();          // every delta issued or received, for the peer at the end
     let mut ckpt: Option<HashMap<String, ReplicatedValue>> = None;
     let mut deltas: Vec<(bool, ReplicationDelta)> = Vec::new(); // (in the WAL?, delta): segments + WAL, in persist order
     let mut up = true;
     let mut n = 0u64;
-    log.push(json!({"a": "reset", "run": run}));
+    log.push(json!({"a": "reset", "run": run, "causal": causal}));
     for st in steps {
         let mut ev = st.clone();
         match st["a"].as_str().unwrap() {
@@ -92,8 +113,10 @@ async fn run_async(run: usize, steps: Vec<Value>, log: &mut Vec<Value>) {
                 let mine: Vec<&ReplicationDelta> = ds.iter().filter(|d| d.key == k).collect();
                 match mine.last() {
                     Some(d) => {
-                        ev["st"] = json!([d.value.timestamp.time, d.value.timestamp.replica_id.0]);
+                        ev["st"] = json!([ct(d.value.timestamp.time), d.value.timestamp.replica_id.0]);
+                        origin.insert(format!("v{n}"), (d.value.timestamp.time, d.value.timestamp.replica_id.0));
                         deltas.push((st["place"] == "wal", (*d).clone()));
+                        everything.push((*d).clone());
                     }
                     // DEL of a key the node does not hold writes nothing: not a clock event
                     None if st.get("del").and_then(|d| d.as_bool()).unwrap_or(false) || st.get("hash").and_then(|d| d.as_bool()).unwrap_or(false) => ev["skipped"] = json!(true),
@@ -102,9 +125,14 @@ async fn run_async(run: usize, steps: Vec<Value>, log: &mut Vec<Value>) {
             }
             "remote" if up => {
                 let k = st["k"].as_str().unwrap();
-                let t = st["t"].as_u64().unwrap();
+                // "big": the peer has been up for a long time
+                let t = st["t"].as_u64().unwrap() + if st.get("big").and_then(|b| b.as_bool()).unwrap_or(false) { BIG } else { 0 };
+                ev["t"] = json!(ct(t));
                 let rv = ReplicatedValue::with_value(SDS::from_str(&format!("r{t}")), LamportClock { time: t, replica_id: ReplicaId::new(2) });
-                node.apply_remote_deltas(vec![ReplicationDelta::new(k.to_string(), rv, ReplicaId::new(2))]);
+                origin.insert(format!("r{t}"), (t, 2));
+                let d = ReplicationDelta::new(k.to_string(), rv, ReplicaId::new(2));
+                everything.push(d.clone());
+                node.apply_remote_deltas(vec![d]);
                 let _ = node.collect_pending_deltas().await;
             }
             "checkpoint" if up => {
@@ -114,7 +142,7 @@ async fn run_async(run: usize, steps: Vec<Value>, log: &mut Vec<Value>) {
                 }
             }
             "crash" if up => {
-                node = new_node();
+                node = new_node_with(1, causal);
                 up = false;
             }
             "recover" if !up => {
@@ -128,9 +156,16 @@ async fn run_async(run: usize, steps: Vec<Value>, log: &mut Vec<Value>) {
             _ => ev["skipped"] = json!(true),
         }
         ev["mem"] = if up { mem(&node).await } else { json!([]) };
+        ev["memv"] = if up { memv(&node, &origin).await } else { json!([]) };
         ev["run"] = json!(run);
         log.push(ev);
     }
+    // a peer that receives everything this node ever issued or received, oldest last: newest write wins there too
+    let peer = new_node_with(3, causal);
+    for d in everything.iter().rev() {
+        peer.apply_remote_deltas(vec![d.clone()]);
+    }
+    log.push(json!({"a": "peer", "run": run, "mem": mem(&peer).await, "memv": memv(&peer, &origin).await}));
 }
 
 fn random_steps(rng: &mut impl Rng) -> Vec<Value> {
@@ -146,7 +181,7 @@ fn random_steps(rng: &mut impl Rng) -> Vec<Value> {
             }
             4..=5 if up => {
                 let t = [1u64, 2, 3, 7, 50, 1000][rng.gen_range(0..6)];
-                json!({"a": "remote", "k": k, "t": t})
+                json!({"a": "remote", "k": k, "t": t, "big": rng.gen_range(0..6) == 0})
             }
             6 if up => json!({"a": "checkpoint", "trim": rng.gen_bool(0.5)}),
             7 if up => {
